@@ -4,7 +4,7 @@ see every VC and a sat/unsat disagreement is a checker error.
 
 Budgets are z3 *resource limits* (rlimit: a deterministic count of solver steps), not wall-clock
 timeouts: the verdict on a VC is the same on an idle and on a busy machine, only the time differs
-(the wall-clock limit is a backstop of half an hour).  Measured on the unchanged tree, the most
+(the wall-clock limit is a backstop of ten minutes per solver call).  Measured on the unchanged tree, the most
 expensive VC that is discharged needs 8.4 million units (C06 add_node, ~7 s); every other one needs
 less than 0.5 million.  Stages for a VC z3 leaves open after RLIMIT_1:
   1b  the same VC without its quantified hypotheses, RLIMIT_1 (unsat there => unsat)
@@ -19,7 +19,7 @@ import time
 
 RLIMIT_1 = {'quick': 25 * 10 ** 6, 'thorough': 80 * 10 ** 6}
 RLIMIT_2 = {'quick': 250 * 10 ** 6, 'thorough': 800 * 10 ** 6}
-WALL_BACKSTOP_S = 1800
+WALL_BACKSTOP_S = 600
 WORKER_MEMORY_MB = 2500
 CVC5_WALL_S = {'quick': 60, 'thorough': 45}
 CVC5 = '/usr/bin/cvc5'
